@@ -1,7 +1,8 @@
 import GeoVerif.Corr.Proto
 import GeoVerif.Model.MathF
+import GeoVerif.Model.MathG
 import GeoVerif.Model.Accum
-/-! Correspondence relations for C16 (angle arithmetic, error-free sum) -/
+/-! Correspondence relations for C16 (angle arithmetic, error-free sum, accumulator) -/
 namespace GeoVerif.Corr.C16
 open GeoVerif GeoVerif.Proto GeoVerif.MathF
 
@@ -10,6 +11,184 @@ def isMult360 (d : Dy) : Bool :=
   if d.m = 0 then true else
   let n := Dy.norm d
   n.e ≥ 0 && (Dy.shl n.m n.e) % 360 = 0
+
+/-- is `x` an integer multiple of `y` (`y ≠ 0`)?  Returns the multiple. -/
+def multipleOf (x y : Dy) : Option Int :=
+  if y.m = 0 then none else
+  let r := F64.ratioInts x y
+  if r.1 % r.2 = 0 then some (r.1 / r.2) else none
+
+/-- a number of any of the three precisions: 16 hex digits = a binary64 pattern (floats are sent exactly converted),
+`L<sign><hex significand>p<exponent>` / `L±inf` / `Lnan` = a long double -/
+def parseG (s : String) : Option F64 :=
+  if s.startsWith "L" then
+    if s == "Lnan" then some .nan else
+    let neg := (s.toList.getD 1 '+') == '-'
+    let body := String.ofList (s.toList.drop 2)
+    if body == "inf" then some (.inf neg) else
+    match body.splitOn "p" with
+    | [h, e] => do
+      let m ← hexToNat h
+      let ex ← e.toInt?
+      pure (.fin neg m ex)
+    | _ => none
+  else parseF s
+
+def parseGs (l : List String) : Option (List F64) := l.mapM parseG
+
+def showG (x : F64) : String :=
+  match x with
+  | .nan => "nan"
+  | .inf s => if s then "-inf" else "+inf"
+  | .fin s m e => (if s then "-" else "+") ++ toString m ++ "·2^" ++ toString e ++ "(" ++ toString x.toDy.toFloat ++ ")"
+
+def expectG (name : String) (model impl : F64) : Verdict :=
+  if sameVal model impl then .ok else .bad s!"{name}: model={showG model} impl={showG impl}"
+
+def dyAbs (d : Dy) : Dy := Dy.abs d
+def two (k : Int) : Dy := ⟨1, k⟩
+def scale (d : Dy) (k : Int) : Dy := ⟨d.m, d.e + k⟩
+
+/-- `|impl − pred| ≤ ulps·ulp(pred) + floor`, and equal signs where the predicted value is well away from zero -/
+def closeTo (name : String) (ulps : Nat) (floor : Dy) (pred impl : F64) : Verdict :=
+  if pred.isNaN then (if impl.isNaN then .ok else .bad s!"{name}: expected NaN, impl={showF impl}")
+  else if !pred.isFinite then expectF name pred impl
+  else if !impl.isFinite then .bad s!"{name}: model={showF pred} impl={showF impl}"
+  else
+    let tol := Dy.add (Dy.mul (Dy.ofInt ulps) (ulpDy pred)) floor
+    let err := Dy.abs (Dy.sub impl.toDy pred.toDy)
+    if Dy.le err tol then .ok
+    else .bad s!"{name}: model={showF pred} impl={showF impl} differ by more than {ulps} ulp"
+
+/-- kernels that return fixed values (the harness's independent wide-precision evaluation for *this* argument) -/
+def constKern (s c a : F64) : Kern := { sin := fun _ => s, cos := fun _ => c, atan2 := fun _ _ => a }
+
+/-- comparison of a value predicted by the model around oracle kernels: exact where the model takes no kernel value
+(special branches, zeros, clamps), within `ulps` otherwise -/
+def cmpTrig (name : String) (exact : Bool) (ulps : Nat) (floor : Dy) (pred impl : F64) : Verdict :=
+  if exact || pred.isZero then expectF name pred impl else closeTo name ulps floor pred impl
+
+/-! ### accumulator histories -/
+
+structure AccSt where
+  s : F64
+  t : F64
+  v : Dy          -- exact value of the history
+  m : Dy          -- magnitude scale of the history (Σ|terms|, scaled by the multiplications)
+  bad : Option String := none
+  skip : Bool := false
+
+def tokVal (tok : String) : Option F64 := parseG (String.ofList (tok.toList.drop 2))
+
+/-- one step of a history: `op` token, state after it (and the extra returned value, if any) -/
+def accStep (f : Fmt) (isD : Bool) (st : AccSt) (tok : String) (s' t' : F64) (extra : Option F64) : AccSt :=
+  if st.bad.isSome || st.skip then st else
+  let fail (msg : String) : AccSt := { st with bad := some s!"{tok}: {msg} before=({showG st.s},{showG st.t}) after=({showG s'},{showG t'})" }
+  let fin4 := st.s.isFinite && st.t.isFinite && s'.isFinite && t'.isFinite
+  let hb := Dy.add st.s.toDy st.t.toDy       -- held before
+  let ha := Dy.add s'.toDy t'.toDy           -- held after
+  let p : Int := f.p
+  -- absolute rounding floor of one operation in the subnormal range (2^(emin+2)), expressed in units of the final bound 2^(8−2p)·m
+  let fl : Dy := two (f.emin + 2 * p - 6)
+  -- the bit-exact model of the code (double only), from the implementation's previous state
+  let modelCheck (a : Accum.Acc) : Option String :=
+    if isD && !(sameVal a.s s' && sameVal a.t t') then some s!"model (_s,_t)=({showG a.s},{showG a.t})" else none
+  let prev : Accum.Acc := ⟨st.s, st.t⟩
+  let next (v m : Dy) : AccSt := { st with s := s', t := t', v := v, m := m }
+  let c := tok.toList.getD 0 ' '
+  if c == 's' || c == 'S' then
+    match tokVal tok with
+    | none => fail "parse"
+    | some y =>
+      let a := Accum.step prev (.set y)
+      if !(sameVal s' a.s && sameVal t' a.t) then fail "after assignment the accumulator must hold exactly (y, +0)"
+      else next y.toDy (Dy.abs y.toDy)
+  else if c == 'a' || c == 'd' then
+    match tokVal tok with
+    | none => fail "parse"
+    | some y0 =>
+      let y := if c == 'd' then F64.neg y0 else y0
+      if !(fin4 && y.isFinite) then { st with skip := true } else
+      -- documented: one rounding of the low word per addition
+      let err := Dy.abs (Dy.sub ha (Dy.add hb y.toDy))
+      let bound := Dy.add (scale (Dy.add (Dy.add (Dy.abs s'.toDy) (Dy.abs y.toDy)) (Dy.abs st.t.toDy)) (1 - 2 * p)) (two (f.emin - 1))
+      if !Dy.le err bound then fail s!"Add lost more than the rounding of the low word: error {err.toFloat}" else
+      match modelCheck (Accum.step prev (if c == 'd' then .sub y0 else .add y0)) with
+      | some e => fail e
+      | none => next (Dy.add st.v y.toDy) (Dy.add (Dy.add st.m (Dy.abs y.toDy)) fl)
+  else if c == 'n' then
+    let a := Accum.step prev .neg
+    if !(sameVal s' a.s && sameVal t' a.t) then fail "negation must flip both words exactly"
+    else next (Dy.neg st.v) st.m
+  else if c == 'i' then
+    match (String.ofList (tok.toList.drop 2)).toInt? with
+    | none => fail "parse"
+    | some n =>
+      if !fin4 then { st with skip := true } else
+      let sub := Dy.lt (Dy.abs s'.toDy) (two (f.emin + p)) || Dy.lt (Dy.abs t'.toDy) (two (f.emin + p))
+      if !sub && !Dy.eq ha (Dy.mul hb (Dy.ofInt n)) then fail "multiplication by ± a power of two must be exact" else
+      match modelCheck (Accum.step prev (.mulInt n)) with
+      | some e => fail e
+      | none => next (Dy.mul st.v (Dy.ofInt n)) (Dy.mul st.m (Dy.ofInt n.natAbs))
+  else if c == 'm' then
+    match tokVal tok with
+    | none => fail "parse"
+    | some y =>
+      if !(fin4 && y.isFinite) then { st with skip := true } else
+      let err := Dy.abs (Dy.sub ha (Dy.mul hb y.toDy))
+      let ay := Dy.abs y.toDy
+      let bound := Dy.add (Dy.add (scale (Dy.mul ay (Dy.abs st.t.toDy)) (1 - p)) (scale (Dy.mul ay (Dy.abs st.s.toDy)) (1 - 2 * p))) (two (f.emin + 1))
+      if !Dy.le err bound then fail s!"*= lost more than the rounding of the low word: error {err.toFloat}" else
+      match modelCheck (Accum.step prev (.mulF y)) with
+      | some e => fail e
+      | none => next (Dy.mul st.v y.toDy) (Dy.add (Dy.mul st.m ay) fl)
+  else if c == 'c' || c == 'k' then
+    if !(sameVal s' st.s && sameVal t' st.t) then fail "copy / const member changed the state" else st
+  else if c == 'q' then
+    match tokVal tok, extra with
+    | some y, some r =>
+      if !(sameVal s' st.s && sameVal t' st.t) then fail "operator()(y) changed the state"
+      else if isD && st.s.isFinite && st.t.isFinite && y.isFinite && !sameVal r (Accum.sumQuery prev y) then fail s!"operator()(y) returned {showG r}, model {showG (Accum.sumQuery prev y)}"
+      else st
+    | _, _ => fail "parse"
+  else if c == 'R' then
+    match tokVal tok, extra with
+    | some y, some r =>
+      if !sameVal r s' then fail "operator()() after remainder is not the high word" else
+      if !(st.s.isFinite && st.t.isFinite) then { st with skip := true } else
+      if y.isNaN || y.isZero then (if s'.isNaN then { st with skip := true } else fail "remainder by 0 / NaN must give NaN") else
+      if !fin4 then { st with skip := true } else
+      -- (i) straight after remainder(y) the reported value is the held sum rounded to working precision
+      let rn := rndG f ha s'.signbit
+      if !Dy.eq rn.toDy s'.toDy then fail s!"after remainder the reported value {showG s'} is not the held sum _s+_t = {ha.toFloat} rounded to working precision ({showG rn})" else
+      let mc := modelCheck (Accum.step prev (.rem y))
+      if y.isInf then
+        (if !Dy.eq ha hb then fail "remainder by ±inf must not change the held sum" else
+         match mc with | some e => fail e | none => next st.v st.m)
+      else
+      -- (ii) the held sum changed by an exact multiple of y, (iii) into [-|y|/2, |y|/2] up to the low word
+      match multipleOf (Dy.sub hb ha) y.toDy with
+      | none => fail "held sum after remainder is not congruent to the held sum before, modulo y"
+      | some k =>
+        let lim := Dy.add (scale (Dy.abs y.toDy) (-1)) (Dy.abs st.t.toDy)
+        if !Dy.le (Dy.abs ha) lim then fail "held sum after remainder exceeds |y|/2 + |low word|" else
+        match mc with
+        | some e => fail e
+        | none => next (Dy.sub st.v (Dy.mul (Dy.ofInt k) y.toDy)) (Dy.add st.m (Dy.abs y.toDy))
+    | _, _ => fail "parse"
+  else fail "unknown token"
+
+partial def accWalk (f : Fmt) (isD : Bool) (st : AccSt) : List String → List F64 → AccSt
+  | [], _ => st
+  | tok :: toks, res =>
+    let c := tok.toList.getD 0 ' '
+    let nExtra := if c == 'R' || c == 'q' then 1 else 0
+    match res with
+    | s' :: t' :: rest =>
+      let extra := if nExtra == 1 then rest.head? else none
+      if nExtra == 1 && extra.isNone then { st with bad := some "result list too short" } else
+      accWalk f isD (accStep f isD st tok s' t' extra) toks (rest.drop nExtra)
+    | _ => { st with bad := some "result list too short" }
 
 def handle (op : String) (args res : List String) : Option Verdict :=
   match op with
@@ -75,6 +254,51 @@ def handle (op : String) (args res : List String) : Option Verdict :=
         let (ms, mc) := sincosdWrap x s c
         all [expectF "sincosd.reduced" md d, expectF "sincosd.sin" ms sx, expectF "sincosd.cos" mc cx]
     | _, _ => .bad "parse"
+  | "sincosde" => some <|
+    -- args: x t, then an independent wide-precision evaluation (rounded to double) of sin / cos of the exactly reduced angle
+    -- d0 + t; res: sincosde(x, t).  The model does the reduction, AngRound, the special-value branches, the quadrant switch and
+    -- the signed zeros; only in the generic branch do the oracle values enter, and only there is a tolerance used:
+    -- 3 ulp (sincosd's 2 + the rounding of d0 + t) + ½ ulp for the oracle's own rounding + the documented AngRound gap
+    match parseFs args, parseFs res with
+    | some [x, t, os, oc], some [sx, cx] =>
+      if !(x.isFinite && t.isFinite) then (if sx.isNaN && cx.isNaN then .ok else .bad "non-finite input must give NaN")
+      else
+        let d := sincosdeArg x t
+        let br := sincosBranch d
+        -- the model's own reduced angle decides whether the sine kernel is an exact zero (AngRound flushes |d0 + t| < 2^-58)
+        let ks := if d.isZero then d * degreeD else os
+        let kc := if d.isZero then (1 : F64) else oc
+        let (ms, mc) := sincosdeM (constKern ks kc 0) x t
+        let exact := d.isZero || br != Branch.generic
+        let floor : Dy := ⟨1, -63⟩          -- 2^-58 degrees in radians, rounded up
+        all [cmpTrig s!"sincosde.sin[{repr br}]" exact 4 floor ms sx, cmpTrig s!"sincosde.cos[{repr br}]" exact 4 floor mc cx]
+    | _, _ => .bad "parse"
+  | "trig1" => some <|
+    -- args: x, oracle sin / cos of the reduced angle, oracle atan2 (radians) of atand's canonical octant problem;
+    -- res: sincosd(x) (2), sind, cosd, tand, atand — all predicted by the full models around the oracle kernels
+    match parseFs args, parseFs res with
+    | some [x, os, oc, oa], some [sx, cx, sd, cd, td, ad] =>
+      if x.isNaN then (if sx.isNaN && cx.isNaN && sd.isNaN && cd.isNaN && td.isNaN && ad.isNaN then .ok else .bad "NaN input must give NaN")
+      else
+        let k := constKern os oc oa
+        let trig : Verdict :=
+          if !x.isFinite then (if sx.isNaN && cx.isNaN && sd.isNaN && cd.isNaN && td.isNaN then .ok else .bad "non-finite input must give NaN")
+          else
+            let d := F64.remainder x qd
+            let exact := sincosBranch d != Branch.generic
+            let (ms, mc) := sincosdM k x
+            let mt := tandM k x
+            -- tand: exact at the clamp and where numerator and denominator are both special; 6 ulp elsewhere
+            let texact := F64.same mt tandOverflow || F64.same mt (F64.neg tandOverflow) || sincosBranch d == Branch.s45
+            all [cmpTrig "sincosd.sin" exact 3 ⟨0, 0⟩ ms sx, cmpTrig "sincosd.cos" exact 3 ⟨0, 0⟩ mc cx,
+                 cmpTrig "sind" exact 3 ⟨0, 0⟩ (sindM k x) sd, cmpTrig "cosd" exact 3 ⟨0, 0⟩ (cosdM k x) cd,
+                 cmpTrig "tand" texact 7 ⟨0, 0⟩ mt td]
+        -- atand: exact on the axes (kernel value ±0 / x = ±1 / ±inf), 4 ulp (+ ½ for the oracle) elsewhere
+        let ma := atandM k x
+        let aexact := x.isZero || x.isInf || Dy.eq (Dy.abs x.toDy) ⟨1, 0⟩
+        both trig (if aexact then expectF "atand" (if x.isZero then x else if x.isInf then F64.copysign qd x else F64.copysign (F64.ofInt 45) x) ad
+                   else cmpTrig "atand" false 5 ⟨0, 0⟩ ma ad)
+    | _, _ => .bad "parse"
   | "atan2d" => some <|
     -- args: y x, canonical (y', x') as the harness obtained them from the model, kernel ang = atan2d(y', x'); res: atan2d(y, x)
     match parseFs args, parseFs res with
@@ -82,46 +306,90 @@ def handle (op : String) (args res : List String) : Option Verdict :=
       if y.isNaN || x.isNaN then (if r.isNaN then .ok else .bad "NaN input must give NaN")
       else expectF "atan2d" (atan2dWrap y x ang) r
     | _, _ => .bad "parse"
-  | "taupf" => some (.skip "closed form and tauf∘taupf are judged by the harness-side oracle (libm kernels)")
-  | "accum" => some <|
-    -- exact dyadic value of the operation sequence vs the accumulator's (_s, _t)
-    match parseFs res with
-    | some [s, t] =>
-      let step (st : Option (Dy × Dy)) (tok : String) : Option (Dy × Dy) :=
-        st.bind fun (v, m) =>
-          if tok.startsWith "a:" then (parseF (String.ofList (tok.toList.drop 2))).map fun y => (Dy.add v y.toDy, Dy.add m (Dy.abs y.toDy))
-          else if tok.startsWith "s:" then (parseF (String.ofList (tok.toList.drop 2))).map fun y => (y.toDy, Dy.abs y.toDy)
-          else if tok.startsWith "d:" then (parseF (String.ofList (tok.toList.drop 2))).map fun y => (Dy.sub v y.toDy, Dy.add m (Dy.abs y.toDy))
-          else if tok == "c" || tok.startsWith "q:" || tok.startsWith "r:" then some (v, m)   -- copy / const queries: state unchanged
-          else if tok == "n" then some (Dy.neg v, m)
-          else if tok.startsWith "i:" then ((String.ofList (tok.toList.drop 2)).toInt?).map fun n => (Dy.mul v (Dy.ofInt n), Dy.mul m (Dy.ofInt n.natAbs))
-          else if tok.startsWith "m:" then (parseF (String.ofList (tok.toList.drop 2))).map fun y => (Dy.mul v y.toDy, Dy.mul m (Dy.abs y.toDy))
-          else none
-      match args.foldl step (some (Dy.zero, Dy.zero)) with
-      | none => .bad "parse"
-      | some (v, m) =>
-        -- bit-exact model of (_s, _t) for histories without `*=` by a number (those use fma, which is not modelled)
-        let mstep (st : Option Accum.Acc) (tok : String) : Option Accum.Acc :=
-          st.bind fun a =>
-            if tok.startsWith "a:" then (parseF (String.ofList (tok.toList.drop 2))).map fun y => Accum.add a y
-            else if tok.startsWith "s:" then (parseF (String.ofList (tok.toList.drop 2))).map fun y => Accum.set y
-            else if tok.startsWith "d:" then (parseF (String.ofList (tok.toList.drop 2))).map fun y => Accum.sub a y
-            else if tok == "c" || tok.startsWith "q:" || tok.startsWith "r:" then some a
-            else if tok == "n" then some (Accum.negate a)
-            else none
-        let modelBad : Option String :=
-          match args.foldl mstep (some (Accum.set 0)) with
-          | some a => if F64.same a.s s && F64.same a.t t then none
-                      else some s!"accumulator model (_s,_t)=({showF a.s},{showF a.t}) impl=({showF s},{showF t})"
-          | none => none
-        if let some msg := modelBad then .bad msg else
-        if !(s.isFinite && t.isFinite) then .skip "overflow" else
-        let err := Dy.abs (Dy.sub (Dy.add s.toDy t.toDy) v)
-        -- "roughly twice working precision": 2^-98 relative to the accumulated magnitude
-        let bound : Dy := ⟨m.m, m.e - 98⟩
-        if Dy.le err bound then .ok
-        else .bad s!"accumulator error {err.toFloat} exceeds 2^-98·{m.toFloat} (exact {v.toFloat})"
+  | "one" => some <|
+    -- args: precision tag, x; res: AngNormalize(x), AngRound(x), LatFix(x) at that precision, decided exactly
+    match args, parseGs res with
+    | [tag, xs], some [an, ar, lf] =>
+      match Fmt.ofTag tag, parseG xs with
+      | some f, some x =>
+        let vNorm : Verdict :=
+          if !x.isFinite then (if an.isNaN then .ok else .bad "AngNormalize: non-finite input must give NaN")
+          else if !an.isFinite then .bad s!"AngNormalize: finite input gave {showG an}"
+          else
+            let c1 := isMult360 (Dy.sub an.toDy x.toDy)
+            let c2 := Dy.le (Dy.abs an.toDy) ⟨180, 0⟩
+            let c3 := !(an.isZero || Dy.eq (Dy.abs an.toDy) ⟨180, 0⟩) || (an.signbit == x.signbit)
+            if c1 && c2 && c3 then expectG "AngNormalize(model)" (angNormalize x) an
+            else .bad s!"AngNormalize x={showG x} r={showG an} congruent={c1} inrange={c2} sign={c3}"
+        all [vNorm, expectG "AngRound" (angRoundG f x) ar, expectG "LatFix" (latFix x) lf]
+      | _, _ => .bad "parse"
+    | _, _ => .bad "parse"
+  | "gsum" => some <|
+    match args, parseGs res with
+    | [tag, us, vs], some [s, t, fs, ft] =>
+      match Fmt.ofTag tag, parseG us, parseG vs with
+      | some f, some u, some v =>
+        if !(u.isFinite && v.isFinite) then .skip "nonfinite"
+        else
+          let exact := Dy.add u.toDy v.toDy
+          let r := rndG f exact (u.signbit && v.signbit)
+          if !r.isFinite then (if sameVal r s then .skip "overflow" else .bad s!"sum: overflow expected, s={showG s}")
+          else
+            -- TwoSum contract at the precision of the instantiation: s = RN(u+v) and s + t = u + v exactly
+            let c1 := sameVal r s
+            let c2 := s.isFinite && t.isFinite && Dy.eq (Dy.add s.toDy t.toDy) exact
+                        && sameVal fs s && ft.isFinite && Dy.eq (Dy.add fs.toDy ft.toDy) exact     -- fastsum (|u| ≥ |v|): same contract
+            -- near overflow of the intermediate differences the contract is not promised
+            let big := Dy.le (two (f.emax - 2)) (Dy.abs exact) || Dy.le (two (f.emax - 2)) (Dy.abs u.toDy) || Dy.le (two (f.emax - 2)) (Dy.abs v.toDy)
+            -- double: fastsum bit for bit against the model
+            let c3 := tag != "d" || !(Dy.le (Dy.abs v.toDy) (Dy.abs u.toDy)) ||
+              (sameVal (Accum.fastsum u v).1 fs && sameVal (Accum.fastsum u v).2 ft)
+            if c1 && (c2 || big) && c3 then .ok
+            else .bad s!"sum[{tag}] u={showG u} v={showG v} s={showG s} t={showG t} rounded={c1} exact={c2} fastsum-model={c3}"
+      | _, _, _ => .bad "parse"
+    | _, _ => .bad "parse"
+  | "gangdiff" => some <|
+    match args, parseGs res with
+    | [tag, xs, ys], some [d, e] =>
+      match Fmt.ofTag tag, parseG xs, parseG ys with
+      | some f, some x, some y =>
+        if !(x.isFinite && y.isFinite) then (if d.isNaN then .ok else .bad "AngDiff: non-finite input must give NaN")
+        else if !(d.isFinite && e.isFinite) then .bad s!"AngDiff: finite input gave d={showG d} e={showG e}"
+        else
+          let tot := Dy.add d.toDy e.toDy
+          let diff := Dy.sub y.toDy x.toDy
+          let c1 := isMult360 (Dy.sub tot diff)
+          let c2 := Dy.le (Dy.abs tot) ⟨180, 0⟩
+          let c3 := Dy.eq (Dy.roundTo f.p f.emin tot) d.toDy
+          -- at 0 and ±180 the sign of d is the sign of y − x
+          let edge := tot.m = 0 || Dy.eq (Dy.abs tot) ⟨180, 0⟩
+          let sgn := if diff.m = 0 then (y.signbit && !x.signbit) else decide (diff.m < 0)
+          let c4 := !edge || d.signbit == sgn
+          if c1 && c2 && c3 && c4 then .ok
+          else .bad s!"AngDiff[{tag}] x={showG x} y={showG y} d={showG d} e={showG e} congruent={c1} inrange={c2} rounded={c3} sign={c4}"
+      | _, _, _ => .bad "parse"
+    | _, _ => .bad "parse"
+  | "gacc" => some <|
+    match args with
+    | tag :: toks =>
+      match Fmt.ofTag tag, parseGs res with
+      | some f, some (s0 :: t0 :: rest) =>
+        if !(sameVal s0 (0 : F64) && sameVal t0 (0 : F64)) then .bad "Accumulator() must hold (+0, +0)" else
+        let st := accWalk f (tag == "d") { s := s0, t := t0, v := Dy.zero, m := Dy.zero } toks rest
+        match st.bad with
+        | some msg => .bad s!"accumulator[{tag}] {msg}"
+        | none =>
+          if st.skip then .skip "non-finite state" else
+          if !(st.s.isFinite && st.t.isFinite) then .skip "overflow" else
+          let err := Dy.abs (Dy.sub (Dy.add st.s.toDy st.t.toDy) st.v)
+          -- "roughly twice working precision": 2^(8−2p) relative to the accumulated magnitude (+ the subnormal floor)
+          let bound : Dy := Dy.add (scale st.m (8 - 2 * (f.p : Int))) (two (f.emin + 6))
+          if Dy.le err bound then .ok
+          else .bad s!"accumulator[{tag}] error {err.toFloat} exceeds 2^(8-2p)·{st.m.toFloat} (exact {st.v.toFloat})"
+      | _, _ => .bad "parse"
     | _ => .bad "parse"
+  | "gatan2d" | "gsincosde" | "gtaupf" | "gpoly" | "gnorm" | "gconst" | "swab" | "f32scan" =>
+    some (.skip "judged by the harness-side oracle against the wider type (libm kernels)")
   | _ => none
 
 end GeoVerif.Corr.C16
